@@ -245,7 +245,7 @@ func runC07(c *fw.Case) {
 		c.Count("tier2_jobs", int64(len(res.Jobs)))
 		extra := map[string]any{"request": req, "universe": g.names, "present_files": chosenNames, "tmp_siblings": tmps, "kind": label, "jobs": res.Jobs}
 		if res.Stuck {
-			c.Violation("C07/liveness/request-stuck-no-job-in-flight", "request on this cache subset made no progress for 20 s with no job in flight", s.witness(extra))
+			c.Violation("C07/liveness/request-stuck-no-job-in-flight", "request on this cache subset made no progress for 45 s with no job in flight", s.witness(extra))
 			return false
 		}
 		if res.Err != nil {
